@@ -5,6 +5,8 @@ import kernpy as kp
 from kernpy.core import tokens as T
 from kernpy.core import document as D
 
+import re as _re
+_RE_ADDR = _re.compile(r'0x[0-9a-fA-F]+')
 Enc = kp.Encoding
 ENCODINGS = [Enc.normalizedKern, Enc.eKern, Enc.bKern, Enc.bEkern, Enc.agnosticKern, Enc.agnosticExtendedKern]
 ENC_BY_NAME = {'kern': Enc.normalizedKern, 'ekern': Enc.eKern, 'bkern': Enc.bKern, 'bekern': Enc.bEkern,
@@ -65,7 +67,8 @@ def tok_fp(t):
         bb = t.bounding_box
         base.append((t.page_number, bb.from_x, bb.from_y, bb.to_x, bb.to_y))
     elif isinstance(t, T.ErrorToken):
-        base.append((t.line, t.error))
+        # the message embeds reprs of parser error objects (memory addresses): normalise them
+        base.append((t.line, _RE_ADDR.sub('0x?', str(t.error))))
     return tuple(base)
 
 
